@@ -381,7 +381,9 @@ func c17Generate(r *rng.R, n int) []c17Scenario {
 	return out
 }
 
-var d32Once, d33Once sync.Once
+var d32Once, d33Once, d34Once sync.Once
+
+func after0(d string) bool { return d[0] == '+' || d[0] == '~' }
 
 func c17Check(c *checker, scs []c17Scenario, how string) {
 	type rr struct {
@@ -465,6 +467,25 @@ func c17Check(c *checker, scs []c17Scenario, how string) {
 			}
 			c.rep.Disagree(report.Disagreement{Kind: "C17 D32 probe: unexpected behaviour", Input: input, Impl: impl, Model: model})
 			continue
+		case "D34":
+			escaped := ""
+			for _, d := range res.diff {
+				if !within(outRel, d[1:]) && after0(d) {
+					escaped = d
+				}
+			}
+			if res.exit == 0 && impl == model && escaped != "" {
+				d34Once.Do(func() {
+					c.rep.Known = append(c.rep.Known, report.Known{ID: "D34", What: "a Thrift file whose base name is \"..\" + \".thrift\", directly in the (inferred) thrift root, is generated OUTSIDE the output directory (TrimSuffix leaves the path element \"..\"): " + escaped + " with output directory " + outRel})
+				})
+				continue
+			}
+			if escaped == "" && impl == model {
+				c.rep.Notes = appendOnce(c.rep.Notes, "D34 probe no longer writes outside the output directory: the finding appears repaired")
+				continue
+			}
+			c.rep.Disagree(report.Disagreement{Kind: "C17 D34 probe: unexpected behaviour", Input: input, Impl: impl, Model: model, Oracle: strings.Join(res.diff, " ")})
+			continue
 		case "D33":
 			if res.exit != 0 && len(res.diff) > 0 && strings.HasPrefix(model, "ok ") {
 				confined := true
@@ -475,7 +496,7 @@ func c17Check(c *checker, scs []c17Scenario, how string) {
 				}
 				if confined {
 					d33Once.Do(func() {
-						c.rep.Known = append(c.rep.Known, report.Known{ID: "D33", What: "a plugin path that is a directory (\".\", \"\") or collides file-vs-directory with another output fails in the write loop after other files were written: exit 1 with a partially written output directory (" + s.Label + ": " + strings.Join(res.diff, " ") + ")"})
+						c.rep.Known = append(c.rep.Known, report.Known{ID: "D33", What: "a plugin path that is a directory (\".\", \"\") or collides file-vs-directory with another output fails in the write loop after other files were written: exit 1 with a partially written output directory (" + s.Label + ")"})
 					})
 					continue
 				}
@@ -587,6 +608,9 @@ func c17Probes() []c17Scenario {
 		base("plugin ./main/main.go vs core main/main.go", "D32", c17Plugin{Name: "alpha", Files: []kv2{{"./main/main.go", "PLUGIN"}}}),
 		base("plugins x.go and ./x.go", "D32", c17Plugin{Name: "alpha", Files: []kv2{{"x.go", "AAA"}}}, c17Plugin{Name: "beta", Files: []kv2{{"./x.go", "BBB"}}}),
 		base("plugins a/b.go and /a//b.go", "D32", c17Plugin{Name: "alpha", Files: []kv2{{"a/b.go", "AAA"}}}, c17Plugin{Name: "beta", Files: []kv2{{"/a//b.go", "BBB"}}}),
+		{Label: "thrift file named ...thrift directly in the inferred root", Probe: "D34", Cwd: "work", Main: "proj/...thrift", Out: "{S}/o/out",
+			Files:   map[string]string{"proj/...thrift": "struct S { 1: optional string a }\n", "sibling/keep.txt": "keep"},
+			Modules: []c17Module{{Path: "proj/...thrift"}}},
 		base("plugin path \".\"", "D33", c17Plugin{Name: "alpha", Files: []kv2{{".", "X"}}}),
 		base("plugin path \"\"", "D33", c17Plugin{Name: "alpha", Files: []kv2{{"", "X"}}}),
 		base("plugin file \"main\" vs core directory main/", "D33", c17Plugin{Name: "alpha", Files: []kv2{{"main", "X"}}}),
